@@ -386,18 +386,18 @@ DegenerateCubic(s) == Len(s) = 4 /\ s[1] = s[2] /\ s[3] = s[4]
 Demote(s) == IF DegenerateCubic(s) THEN <<s[1], s[4]>> ELSE s
 IsH(s) == Len(s) = 2 /\ s[1][2] = s[2][2] /\ s[1] # s[2]
 IsV(s) == Len(s) = 2 /\ s[1][1] = s[2][1] /\ s[1] # s[2]
-RECURSIVE MergeHV(_, _)
-MergeHV(ss, acc) ==
-  IF ss = <<>> THEN acc
-  ELSE LET s == Head(ss)  n == Len(acc) IN
-       IF ZeroSeg(s) THEN MergeHV(Tail(ss), acc)
+RECURSIVE MergeHV(_, _, _)
+MergeHV(ss, i, acc) ==
+  IF i > Len(ss) THEN acc
+  ELSE LET s == ss[i]  n == Len(acc) IN
+       IF ZeroSeg(s) THEN MergeHV(ss, i + 1, acc)
        ELSE IF n > 0 /\ ((IsH(s) /\ IsH(acc[n])) \/ (IsV(s) /\ IsV(acc[n])))
-            THEN (IF acc[n][1] = s[2] THEN MergeHV(Tail(ss), SubSeq(acc, 1, n - 1))
-                  ELSE MergeHV(Tail(ss), [acc EXCEPT ![n] = <<acc[n][1], s[2]>>]))
-            ELSE MergeHV(Tail(ss), Append(acc, s))
+            THEN (IF acc[n][1] = s[2] THEN MergeHV(ss, i + 1, SubSeq(acc, 1, n - 1))
+                  ELSE MergeHV(ss, i + 1, [acc EXCEPT ![n] = <<acc[n][1], s[2]>>]))
+            ELSE MergeHV(ss, i + 1, Append(acc, s))
 SpecializeItem(gc) ==
   IF gc.k # "c" THEN gc
-  ELSE [gc EXCEPT !.segs = MergeHV([i \in 1..Len(gc.segs) |-> Demote(gc.segs[i])], <<>>)]
+  ELSE [gc EXCEPT !.segs = MergeHV([i \in 1..Len(gc.segs) |-> Demote(gc.segs[i])], 1, <<>>)]
 (* The rules form a confluent rewriting system (sums of runs, zero sums vanish), MergeHV
    computes its normal form with a stack; both sides of a comparison are normalised.    *)
 GeoT2(g) == SelectSeq(GeoPlain([i \in 1..Len(g) |-> SpecializeItem(CloseItem(g[i]))]), IsDrawn)
